@@ -1,9 +1,12 @@
 """C17 implementation side: run the real cmd/shell/cmds/shells steps on real subprocesses.
 
 Every command of a case is the tiny script CHILD run by the interpreter (`sys.executable -S`):
-  * appends `S <id> <pid>` to <dir>/log and creates <dir>/started.<id>   (proof that it started)
-  * for the concurrent steps waits until <dir>/go.<id> exists                (explicit hand-off)
-  * writes the scripted stdout / stderr, appends `D <id>`, creates <dir>/done.<id>
+  * claims the next free OCCURRENCE slot k of its instruction: creates <dir>/claim.<id>.<k> with O_EXCL
+    (identical instructions - the same entry declared twice - are told apart by k), appends `S <id> <pid> <k>`
+    to <dir>/log and creates <dir>/started.<id>.<k>   (proof that it started)
+  * with "rdv": n waits until n processes of its instruction have started (workers that need each other)
+  * for the concurrent steps waits until <dir>/go.<id>.<k> exists            (explicit hand-off)
+  * writes the scripted stdout / stderr, appends `D <id> <k>`, creates <dir>/done.<id>.<k>
   * exits with the scripted code - or, for a negative code -N, kills itself with signal N (default
     disposition restored first), so the implementation sees returncode -N.
 A command that *cannot be started* (P["spawn"]) is no child at all:
@@ -20,7 +23,9 @@ condition under a watchdog. A process that starts although the plan does not exp
 at once (so nothing can deadlock) and reported as an anomaly.
 
 Abstract configuration (JSON) -> the `cmd` / `cmds` context value, and -> the model request:
-  P    = {"id", "code", "out", "err"[, "orep": n][, "erep": n][, "spawn": "missing"|"noexec"|"badquote"|"cwd"[, "cwdkey": id]]}
+  P    = {"id", "code", "out", "err"[, "orep": n][, "erep": n][, "rdv": n][, "spawn": "missing"|"noexec"|"badquote"|"cwd"[, "cwdkey": id]]}
+         `id` names the CONTENT of the instruction (its command line): the same P may occur any number of times in a
+         configuration (identical entries); what is observed is per occurrence (multisets of ids)
          code: 0, 1..255, or -N (killed by signal N); with "spawn": code 0, out/err ""
          out / err: the BYTES the command writes, one character per byte (latin-1): ASCII text, or bytes a1..ff
          (e.g. "\xff\xfe#7\n": not text in utf-8 / ascii)
@@ -29,6 +34,8 @@ Abstract configuration (JSON) -> the `cmd` / `cmds` context value, and -> the mo
          M = {"run": {"str": P} | {"list": [P]}, "save": bool, "bytes": bool, OPT}
   cmds : {"str": P} | {"map": A} | {"list": [{"str": P} | {"sub": [P]} | {"map": A}]}
          A = {"run": {"str": P} | {"list": [{"str": P} | {"sub": [P]}]}, "save": bool, "bytes": bool, OPT}
+         {"ref": j} in place of a top-level list item / of an element of a `run` list: the SAME python object as
+         item / element j of that list (a yaml alias)
   OPT  = ["encoding": "utf-8"|"latin-1"|"ascii"][, "stdout": T][, "stderr": T][, "append": bool]
   T    = "devnull" | "stdout" (stderr only) | {"file": k[, "bad": "isDir"|"parentFile"][, "pre": "old content"]}
          file k is <dir>/out/f<k>; bad: the path is a directory / its parent directory is a regular file
@@ -40,6 +47,8 @@ the placeholders replaced by real command lines / paths (`realize`).
 """
 from __future__ import annotations
 
+import collections
+import copy
 import json
 import os
 import re
@@ -55,13 +64,30 @@ import time
 CHILD = r'''
 import os, sys, time
 d, ident, code, wait, out, err = sys.argv[1:7]
+rdv = int(sys.argv[7]) if len(sys.argv) > 7 else 0
 def log(line):
     fd = os.open(os.path.join(d, 'log'), os.O_WRONLY | os.O_APPEND | os.O_CREAT, 0o644)
     os.write(fd, line.encode()); os.close(fd)
-log('S %s %d\n' % (ident, os.getpid()))
-open(os.path.join(d, 'started.' + ident), 'w').close()
+# identical instructions are told apart by the OCCURRENCE slot each process claims (atomically) when it starts
+k = 0
+while True:
+    try:
+        os.close(os.open(os.path.join(d, 'claim.%s.%d' % (ident, k)), os.O_WRONLY | os.O_CREAT | os.O_EXCL, 0o644))
+        break
+    except FileExistsError:
+        k += 1
+log('S %s %d %d\n' % (ident, os.getpid(), k))
+open(os.path.join(d, 'started.%s.%d' % (ident, k)), 'w').close()
+if rdv:
+    # a worker that needs its identical siblings: goes on only once `rdv` of them are running
+    t0 = time.monotonic()
+    pre = 'started.%s.' % ident
+    while len([n for n in os.listdir(d) if n.startswith(pre)]) < rdv:
+        if time.monotonic() - t0 > 120:
+            log('T %s\n' % ident); os._exit(97)
+        time.sleep(0.002)
 if wait == '1':
-    go = os.path.join(d, 'go.' + ident)
+    go = os.path.join(d, 'go.%s.%d' % (ident, k))
     t0 = time.monotonic()
     while not os.path.exists(go):
         if time.monotonic() - t0 > 120:
@@ -77,8 +103,8 @@ if out != '-':
     sys.stdout.buffer.write(data(out)); sys.stdout.buffer.flush()
 if err != '-':
     sys.stderr.buffer.write(data(err)); sys.stderr.buffer.flush()
-log('D %s\n' % ident)
-open(os.path.join(d, 'done.' + ident), 'w').close()
+log('D %s %d\n' % (ident, k))
+open(os.path.join(d, 'done.%s.%d' % (ident, k)), 'w').close()
 c = int(code)
 if c < 0:
     import signal
@@ -145,9 +171,35 @@ def map_procs(m):
     if 'str' in run:
         return [run['str']]
     out = []
-    for e in run['list']:
+    for e in expand_list(run['list']):
         out += [e] if 'id' in e else ([e['str']] if 'str' in e else list(e['sub']))
     return out
+
+
+def expand_list(xs):
+    """A list with every {"ref": j} replaced by (a copy of) element j."""
+    out = []
+    for x in xs:
+        out.append(copy.deepcopy(out[x['ref']]) if isinstance(x, dict) and 'ref' in x else x)
+    return out
+
+
+def expand(cfg):
+    """The configuration without aliases (same content)."""
+    def of_item(it):
+        if 'map' in it and 'list' in it['map']['run']:
+            m = dict(it['map'])
+            m['run'] = {'list': expand_list(m['run']['list'])}
+            return {**it, 'map': m}
+        return it
+    if 'list' in cfg:
+        return {**cfg, 'list': [of_item(it) for it in expand_list(cfg['list'])]}
+    return of_item(cfg)
+
+
+def occurrences(cfg):
+    """How often each instruction is declared."""
+    return collections.Counter(p['id'] for c in commands(cfg) for p in c['procs'])
 
 
 def commands(cfg):
@@ -186,6 +238,7 @@ def commands(cfg):
         if 'sub' in it:       # Command([cmd]): a one-element run list holding the serial sub-list
             return mk([list(it['sub'])], False, [True])
         return of_map(it['map'])
+    cfg = expand(cfg)
     items = cfg['list'] if 'list' in cfg else [cfg]
     return [of_item(it) for it in items]
 
@@ -246,8 +299,10 @@ def cfg_value(cfg):
         if 'str' in run:
             r = pname(run['str'])
         else:
-            r = [(pname(e) if 'id' in e else (pname(e['str']) if 'str' in e else [pname(x) for x in e['sub']]))
-                 for e in run['list']]
+            r = []
+            for e in run['list']:
+                r.append(r[e['ref']] if 'ref' in e else
+                         (pname(e) if 'id' in e else (pname(e['str']) if 'str' in e else [pname(x) for x in e['sub']])))
         d = {'run': r}
         ps = map_procs(m)
         if any(p.get('spawn') == 'cwd' for p in ps):
@@ -280,19 +335,28 @@ def cfg_value(cfg):
             return [P(x) for x in it['sub']]
         return of_map(it['map'])
     if 'list' in cfg:
-        return [of_item(it) for it in cfg['list']]
+        out = []
+        for it in cfg['list']:
+            out.append(out[it['ref']] if 'ref' in it else of_item(it))     # the same object again
+        return out
     return of_item(cfg)
 
 
 def world_of(cfg, is_async):
     """The scripted outcome of every placeholder, for the model."""
-    procs = []
+    procs, seen = [], {}
     for c in commands(cfg):
         for p in c['procs']:
             sp = p.get('spawn')
-            procs.append({'name': pname(p), 'id': p['id'], 'spawn': SPAWN_KIND[sp] if sp else None, 'code': p['code'],
-                          'out': eff_out(p), 'err': eff_err(p),
-                          'decodeFails': (not sp) and not decodable(p, c['enc'])})
+            w = {'name': pname(p), 'id': p['id'], 'spawn': SPAWN_KIND[sp] if sp else None, 'code': p['code'],
+                 'out': eff_out(p), 'err': eff_err(p), 'decodeFails': (not sp) and not decodable(p, c['enc'])}
+            # an instruction declared more than once: one and the same outcome
+            if p['id'] in seen:
+                if seen[p['id']] != (p, w):
+                    raise ValueError(f"instruction {p['id']} declared twice with different content / decodability")
+                continue
+            seen[p['id']] = (p, w)
+            procs.append(w)
     paths = [{'path': lab, 'bad': t.get('bad'), 'content': t.get('pre')} for lab, t in sorted(file_targets(cfg).items())]
     return {'procs': procs, 'paths': paths}
 
@@ -328,6 +392,10 @@ class Scratch:
         hx = lambda s, n: (f'R{n}:' if n != 1 else '') + s.encode('latin-1').hex() if s and n else '-'
         line = (f"{sys.executable} -S {self.script} {self.dir} {p['id']} {p['code']} {self.wait} "
                 f"{hx(p['out'], p.get('orep', 1))} {hx(p['err'], p.get('erep', 1))}")
+        if p.get('rdv'):
+            if self.wait != '1':
+                raise ValueError('workers that wait for each other exist only in the concurrent steps')
+            line += f" {p['rdv']}"
         # under a shell `exec` makes the interpreter replace the shell: one pid per command
         return 'exec ' + line if self.shell else line
 
@@ -372,8 +440,16 @@ class Scratch:
 def realize(value, sc: Scratch, procs):
     """The configuration value with every placeholder replaced by the real thing."""
     by_name = {pname(p): p for p in procs.values()}
+    memo = {}       # the same object in, the same object out (aliases survive)
 
     def go(v):
+        if isinstance(v, (list, dict)):
+            if id(v) not in memo:
+                memo[id(v)] = go1(v)
+            return memo[id(v)]
+        return go1(v)
+
+    def go1(v):
         if isinstance(v, str):
             if v in by_name:
                 p = by_name[v]
@@ -498,7 +574,7 @@ def read_log(sc):
                 parts = line.split()
                 if parts[0] == 'S':
                     ev.append(['s', int(parts[1])])
-                    pids[int(parts[1])] = int(parts[2])
+                    pids[(int(parts[1]), int(parts[3]))] = int(parts[2])
                 elif parts[0] == 'D':
                     ev.append(['f', int(parts[1])])
                 elif parts[0] == 'T':
@@ -581,34 +657,81 @@ def run_serial(case):
 # concurrent steps
 # --------------------------------------------------------------------------
 
-class Releaser(threading.Thread):
-    """Follows the plan (the model's event trace for the case's schedule) against the real processes."""
+_MARK = re.compile(r'^(started|done)\.(\d+)\.(\d+)$')
 
-    def __init__(self, sc, plan, all_ids, finished):
+
+def scan_markers(d):
+    """{'started': {id: {k, ...}}, 'done': {...}}: the occurrence slots claimed / finished so far."""
+    out = {'started': {}, 'done': {}}
+    try:
+        names = os.listdir(d)
+    except OSError:
+        return out
+    for n in names:
+        m = _MARK.match(n)
+        if m:
+            out[m.group(1)].setdefault(int(m.group(2)), set()).add(int(m.group(3)))
+    return out
+
+
+class Releaser(threading.Thread):
+    """Follows the plan (the model's event trace for the case's schedule) against the real processes.
+
+    Processes are identified by (instruction id, occurrence slot). The plan speaks of instruction ids: where
+    an instruction is declared more than once its processes are interchangeable (the generators only put
+    identical instructions where what follows them is identical too), so `start i` means "one more process of
+    instruction i is running" and `fin i` "one of the running processes of instruction i exits now"."""
+
+    def __init__(self, sc, plan, occ, finished):
         super().__init__(daemon=True)
-        self.sc, self.plan, self.all_ids, self.finished = sc, plan, all_ids, finished
+        self.sc, self.plan, self.occ, self.finished = sc, plan, dict(occ), finished
+        self.all_ids = sorted(self.occ)
         self.anomalies = []
         self.infra = None
-        self.expected = set()       # ids the plan has started so far
-        self.released = set()
+        self.expected = collections.Counter()     # starts the plan has asked for so far, per instruction
+        self.unexpected = collections.Counter()   # processes running beyond that (reported, let go)
+        self.released = set()                      # (id, slot)
         self.free_run = False       # the plan could not be followed: just let everything go
         self.t0 = time.monotonic()
 
     # -- primitives
-    def exists(self, kind, i):
-        return os.path.exists(os.path.join(self.sc.dir, f'{kind}.{i}'))
+    def nstarted(self, i):
+        return len(scan_markers(self.sc.dir)['started'].get(i, ()))
 
-    def release(self, i):
-        if i not in self.released:
-            self.released.add(i)
-            open(os.path.join(self.sc.dir, f'go.{i}'), 'w').close()
+    def is_done(self, i, k):
+        return os.path.exists(os.path.join(self.sc.dir, f'done.{i}.{k}'))
+
+    def release(self, i, k):
+        if (i, k) not in self.released:
+            self.released.add((i, k))
+            open(os.path.join(self.sc.dir, f'go.{i}.{k}'), 'w').close()
+
+    def release_one(self, i):
+        """Let one running, not yet released process of instruction i go; its slot, or None."""
+        for k in sorted(scan_markers(self.sc.dir)['started'].get(i, ())):
+            if (i, k) not in self.released:
+                self.release(i, k)
+                return k
+        return None
+
+    def release_all_started(self):
+        for i, ks in scan_markers(self.sc.dir)['started'].items():
+            for k in ks:
+                self.release(i, k)
+
+    def expect(self, i):
+        self.expected[i] += 1
+        if self.unexpected[i] > 0:       # it was early, not surplus
+            self.unexpected[i] -= 1
 
     def sweep_unexpected(self):
-        """A process the plan has not started is running: report it and let it go."""
+        """A process the plan has not started is running: report it and let one go."""
+        st = scan_markers(self.sc.dir)['started']
         for i in self.all_ids:
-            if i not in self.expected and i not in self.released and self.exists('started', i):
+            while len(st.get(i, ())) > self.expected[i] + self.unexpected[i]:
+                self.unexpected[i] += 1
                 self.anomalies.append(['unexpected_start', i])
-                self.release(i)
+                self.release_one(i)
 
     def wait_for(self, cond, what):
         """Poll `cond` (an explicit file/pid condition). Returns True when it holds, False when the
@@ -633,9 +756,9 @@ class Releaser(threading.Thread):
             self.sweep_unexpected()
             time.sleep(0.001)
 
-    def pid_gone(self, i):
+    def pid_gone(self, i, k):
         _, pids = read_log(self.sc)
-        pid = pids.get(i)
+        pid = pids.get((i, k))
         if pid is None:
             return True
         try:
@@ -652,23 +775,27 @@ class Releaser(threading.Thread):
         except Exception as e:  # pragma: no cover
             self.infra = f'releaser crashed: {type(e).__name__}: {e}'
         finally:
-            # whatever happened, never leave a child waiting
-            for _ in range(3):
-                for i in self.all_ids:
-                    self.release(i)
+            # whatever happened, never leave a child waiting (also one that starts only now)
+            for i in self.all_ids:
+                for k in range(self.occ[i] + 2):
+                    self.release(i, k)
 
     def _run(self):
         plan = list(self.plan)
         # 1. every lane's first process must be running before anything is allowed to exit
         k = 0
         while k < len(plan) and plan[k][0] == 's':
-            self.expected.add(plan[k][1])
+            self.expect(plan[k][1])
             k += 1
-        first = sorted(self.expected)
-        ok = self.wait_for(lambda: all(self.exists('started', i) for i in first), ['all_started', first])
+        first = collections.Counter(self.expected)
+
+        def missing():
+            st = scan_markers(self.sc.dir)['started']
+            return sorted(i for i, n in first.items() for _ in range(n - len(st.get(i, ()))))
+        ok = self.wait_for(lambda: not missing(), ['all_started', sorted(first.elements())])
         if not ok:
-            missing = [i for i in first if not self.exists('started', i)]
-            if missing and not self.finished.is_set():
+            miss = missing()
+            if miss and not self.finished.is_set():
                 # is it the implementation or the machine? time a trivial spawn
                 import subprocess
                 t1 = time.monotonic()
@@ -676,8 +803,8 @@ class Releaser(threading.Thread):
                 if time.monotonic() - t1 > 2.0:
                     self.infra = 'machine too slow to judge concurrency (trivial spawn took > 2 s)'
                     return
-            if missing:
-                self.anomalies.append(['not_started_concurrently', missing])
+            if miss:
+                self.anomalies.append(['not_started_concurrently', miss])
         if self.infra:
             return
         # 2. the schedule
@@ -687,24 +814,26 @@ class Releaser(threading.Thread):
             if self.free_run or self.finished.is_set():
                 break
             if kind == 'f':
-                if not self.exists('started', i):
-                    if not self.wait_for(lambda: self.exists('started', i), ['started', i]):
-                        continue
-                self.release(i)
-                if self.wait_for(lambda: self.exists('done', i), ['done', i]):
-                    self.wait_for(lambda: self.pid_gone(i), ['reaped', i])
+                got = [self.release_one(i)]
+
+                def try_release():
+                    got[0] = self.release_one(i)
+                    return got[0] is not None
+                if got[0] is None and not self.wait_for(try_release, ['started', i]):
+                    continue
+                slot = got[0]
+                if self.wait_for(lambda: self.is_done(i, slot), ['done', i]):
+                    self.wait_for(lambda: self.pid_gone(i, slot), ['reaped', i])
             else:
-                self.expected.add(i)
-                self.wait_for(lambda: self.exists('started', i), ['started', i])
+                self.expect(i)
+                self.wait_for(lambda: self.nstarted(i) >= self.expected[i], ['started', i])
         # 3. until the step returns: anything else that starts is unexpected (and is let go)
         while not self.finished.is_set():
             if time.monotonic() - self.t0 > WATCHDOG_S:
                 self.infra = f'watchdog: step did not return within {WATCHDOG_S}s'
                 return
             if self.free_run:
-                for i in self.all_ids:
-                    if self.exists('started', i):
-                        self.release(i)
+                self.release_all_started()
             else:
                 self.sweep_unexpected()
             time.sleep(0.001)
@@ -744,7 +873,7 @@ def run_async(case, plan):
         procs = all_procs_async(case['cfg'])
         ctx = Context({'cmds': real_config(case['cfg'], sc, procs), 'cmdOut': SENTINEL})
         step = importlib.import_module('pypyr.steps.' + case['step'])
-        rel = Releaser(sc, plan, sorted(procs), finished)
+        rel = Releaser(sc, plan, occurrences(case['cfg']), finished)
         rel.start()
         err_type, errors = None, []
         try:
@@ -758,8 +887,8 @@ def run_async(case, plan):
         finally:
             # "wait for all of them": the moment the step returns, every process it started has finished
             ev0, _ = read_log(sc)
-            fin0 = {i for k, i in ev0 if k == 'f'}
-            running_at_return = sorted({i for k, i in ev0 if k == 's'} - fin0)
+            running_at_return = sorted((collections.Counter(i for k, i in ev0 if k == 's')
+                                        - collections.Counter(i for k, i in ev0 if k == 'f')).elements())
             finished.set()
         rel.join(WATCHDOG_S + 10)
         if rel.is_alive() or rel.infra:
@@ -768,13 +897,11 @@ def run_async(case, plan):
         t0 = time.monotonic()
         while time.monotonic() - t0 < 5:
             ev, _ = read_log(sc)
-            st = {i for k, i in ev if k == 's'}
-            dn = {i for k, i in ev if k == 'f'}
-            if st <= dn:
+            if not (collections.Counter(i for k, i in ev if k == 's') - collections.Counter(i for k, i in ev if k == 'f')):
                 break
             time.sleep(0.002)
         ev, _ = read_log(sc)
-        return {'trace': canon_trace(ev), 'started': sorted({i for k, i in ev if k == 's'}),
+        return {'trace': canon_trace(ev), 'started': sorted(i for k, i in ev if k == 's'),
                 'err_type': err_type, 'errors': errors,
                 'cmdOut': slots_obs(ctx.get('cmdOut', '<<deleted>>'), sc, procs),
                 'running_at_return': running_at_return,
